@@ -1,0 +1,124 @@
+//! Verification hooks. Compiled only with `--cfg deltio_verif`.
+//!
+//! The hooks never change behaviour by themselves: `point` is a no-op unless a
+//! schedule has been installed, in which case it yields to the scheduler a
+//! seeded number of times (only ever placed next to an existing suspension
+//! point). Counters record which sites were reached so that a monitor can show
+//! what a run actually exercised.
+
+use std::collections::BTreeMap;
+use std::sync::atomic::{AtomicBool, AtomicU64, Ordering};
+use std::sync::Mutex;
+
+/// Whether a schedule is installed.
+static ACTIVE: AtomicBool = AtomicBool::new(false);
+
+/// Counts every hook hit, installed or not. Used by monitors as an activity
+/// indicator when deciding whether the system has gone quiet.
+static ACTIVITY: AtomicU64 = AtomicU64::new(0);
+
+struct Schedule {
+    /// SplitMix64 state.
+    rng: u64,
+    /// Whether `point` should yield at all.
+    yields: bool,
+    /// Hits per site.
+    counts: BTreeMap<&'static str, u64>,
+}
+
+static SCHEDULE: Mutex<Option<Schedule>> = Mutex::new(None);
+
+fn next(rng: &mut u64) -> u64 {
+    *rng = rng.wrapping_add(0x9E37_79B9_7F4A_7C15);
+    let mut z = *rng;
+    z = (z ^ (z >> 30)).wrapping_mul(0xBF58_476D_1CE4_E5B9);
+    z = (z ^ (z >> 27)).wrapping_mul(0x94D0_49BB_1331_11EB);
+    z ^ (z >> 31)
+}
+
+/// Installs a schedule: sites are counted and, when `yields` is set, every
+/// `point` yields 0 (half of the time) or 1..=3 times, drawn from `seed`.
+pub fn install(seed: u64, yields: bool) {
+    let mut guard = SCHEDULE.lock().unwrap_or_else(|e| e.into_inner());
+    *guard = Some(Schedule {
+        rng: seed,
+        yields,
+        counts: BTreeMap::new(),
+    });
+    ACTIVE.store(true, Ordering::SeqCst);
+}
+
+/// Removes the schedule and returns the per-site hit counts.
+pub fn uninstall() -> Vec<(String, u64)> {
+    ACTIVE.store(false, Ordering::SeqCst);
+    let mut guard = SCHEDULE.lock().unwrap_or_else(|e| e.into_inner());
+    guard
+        .take()
+        .map(|s| s.counts.into_iter().map(|(k, v)| (k.to_string(), v)).collect())
+        .unwrap_or_default()
+}
+
+/// Returns the per-site hit counts without removing the schedule.
+pub fn snapshot() -> Vec<(String, u64)> {
+    let guard = SCHEDULE.lock().unwrap_or_else(|e| e.into_inner());
+    guard
+        .as_ref()
+        .map(|s| s.counts.iter().map(|(k, v)| (k.to_string(), *v)).collect())
+        .unwrap_or_default()
+}
+
+/// Total number of hook hits so far.
+pub fn activity() -> u64 {
+    ACTIVITY.load(Ordering::SeqCst)
+}
+
+/// Counts a site without yielding.
+pub fn count(site: &'static str) {
+    ACTIVITY.fetch_add(1, Ordering::SeqCst);
+    if !ACTIVE.load(Ordering::Relaxed) {
+        return;
+    }
+    let mut guard = SCHEDULE.lock().unwrap_or_else(|e| e.into_inner());
+    if let Some(s) = guard.as_mut() {
+        *s.counts.entry(site).or_insert(0) += 1;
+    }
+}
+
+/// A schedule point: counts the site and yields a seeded number of times.
+pub async fn point(site: &'static str) {
+    ACTIVITY.fetch_add(1, Ordering::SeqCst);
+    if !ACTIVE.load(Ordering::Relaxed) {
+        return;
+    }
+    let n = {
+        let mut guard = SCHEDULE.lock().unwrap_or_else(|e| e.into_inner());
+        match guard.as_mut() {
+            None => 0,
+            Some(s) => {
+                *s.counts.entry(site).or_insert(0) += 1;
+                if !s.yields {
+                    0
+                } else {
+                    let r = next(&mut s.rng);
+                    if r & 1 == 0 {
+                        0
+                    } else {
+                        1 + ((r >> 1) % 3)
+                    }
+                }
+            }
+        }
+    };
+    for _ in 0..n {
+        tokio::task::yield_now().await;
+    }
+}
+
+/// A schedule point in front of a mailbox send; also records whether the
+/// mailbox was full at that moment.
+pub async fn send_point(site: &'static str, full_site: &'static str, capacity: usize) {
+    if capacity == 0 {
+        count(full_site);
+    }
+    point(site).await;
+}
